@@ -28,7 +28,7 @@ FAULT_KINDS = ["disk_write", "disk_remove", "disk_mkdir_over", "disk_nonutf8", "
                "proto_unknown_request", "proto_request_closed_doc", "proto_ranged_change", "burst"]
 PROBES = ["parse_error_then_valid", "valid_then_parse_error", "close_then_reopen", "duplicate_open", "change_never_opened", "request_closed_document",
           "position_beyond_last_line", "non_ascii_line", "crlf_text", "burst_ge_8", "disk_fault_then_close", "strict_final_compared",
-          "fmt_oracle_rejects", "fmt_oracle_accepts", "build_oracle_succeeds", "overlay_episode_closed", "final_probes_compared", "workspace_root_via_symlink", "identical_text_resent", "library_tabs_restored", "definition_answered", "hover_answered", "semtok_nonempty",
+          "fmt_oracle_rejects", "fmt_oracle_accepts", "build_oracle_succeeds", "overlay_episode_closed", "final_probes_compared", "workspace_root_via_symlink", "identical_text_resent", "library_tabs_restored", "version_restarts_after_reopen", "definition_answered", "hover_answered", "semtok_nonempty",
           "wssym_nonempty", "completion_nonempty", "non_file_uri"]
 REQS = ["hover", "definition", "completion", "semtok", "wssym"]
 
@@ -429,6 +429,7 @@ def execute(world, sb, res):
     text_bearing = {}
     had_fault = False
     unsaved_libs = set()
+    versions = {}          # uri -> version the client last used; restarts at 1 with every didOpen
     history = res.history
 
     def text_of(uri, snapshot=None):
@@ -578,7 +579,10 @@ def execute(world, sb, res):
                     had_fault = True
                 if uri in ever_closed:
                     res.probe("close_then_reopen")
-                srv.notify("textDocument/didOpen", {"textDocument": {"uri": uri, "languageId": "ucg", "version": mi, "text": text}})
+                if versions.get(uri, 0) > 1:
+                    res.probe("version_restarts_after_reopen")
+                versions[uri] = 1
+                srv.notify("textDocument/didOpen", {"textDocument": {"uri": uri, "languageId": "ucg", "version": 1, "text": text}})
                 buffers[uri] = text
                 pending.append({"type": "diag", "kind": m, "uri": uri, "text": text, "texts": dict(buffers)})
                 text_bearing[uri] = text_bearing.get(uri, 0) + 1
@@ -590,7 +594,8 @@ def execute(world, sb, res):
                 keyseq.append([m, msg.get("cls", "lib")])
             elif m == "change_lib":
                 uri = lib_uris[msg["lib"]]
-                srv.notify("textDocument/didChange", {"textDocument": {"uri": uri, "version": mi}, "contentChanges": [{"text": msg["text"]}]})
+                versions[uri] = versions.get(uri, 0) + 1
+                srv.notify("textDocument/didChange", {"textDocument": {"uri": uri, "version": versions[uri]}, "contentChanges": [{"text": msg["text"]}]})
                 buffers[uri] = msg["text"]
                 pending.append({"type": "diag", "kind": "change", "uri": uri, "text": msg["text"], "texts": dict(buffers)})
                 keyseq.append(["change_lib"])
@@ -622,7 +627,8 @@ def execute(world, sb, res):
                     changes = [{"text": t} for t in msg["texts"]]
                 if msg.get("cls") == "identical_resend":
                     res.probe("identical_text_resent")
-                srv.notify("textDocument/didChange", {"textDocument": {"uri": uri, "version": mi}, "contentChanges": changes})
+                versions[uri] = versions.get(uri, 0) + 1
+                srv.notify("textDocument/didChange", {"textDocument": {"uri": uri, "version": versions[uri]}, "contentChanges": changes})
                 if msg["texts"]:
                     buffers[uri] = msg["texts"][-1]
                     pending.append({"type": "diag", "kind": "change", "uri": uri, "text": msg["texts"][-1], "texts": dict(buffers)})
